@@ -74,7 +74,21 @@ def with_coindex(mt, function=False):
     return model.MT(mt.sid, mt.toks, rec(mt.root, ()))
 
 
+def failed_binarize():
+    """A failed call is part of the history: binarize with bare labels on a tree without head marks is rejected;
+    nothing of it may show in the next call."""
+    victim = build(model.MT(1, model.mk_tokens(3), ('VROOT', '--', (('S', '--', (1, 2, 3)),))))
+    for x in all_nodes(victim):
+        x.data.pop('head', None)
+    try:
+        transform.binarize(victim, bare_bin_labels=True)
+    except Exception:
+        pass
+
+
 def check_bin(mtj, bare, marked, order=None):
+    if marked and not bare:
+        failed_binarize()
     mt = model.MT.from_json(mtj)
     case = {'bin': mtj, 'bare': bare, 'marked': marked, 'order': order}
     out = []
